@@ -27,8 +27,10 @@ import (
 const (
 	shortTimeoutMs = 5000  // msg_timeout of "short" consumers
 	longTimeoutMs  = 60000 // msg_timeout of the others (the daemon default)
+	xlongTimeoutMs = 120000 // some consumers negotiate more than the daemon default
 	deferMs        = 30000 // REQ / DPUB delay when not immediate
 	scanShort      = 20 * time.Second
+	scanMid        = 90 * time.Second // between the default and the xlong msg_timeout
 	scanAll        = 2 * time.Hour
 )
 
